@@ -1,6 +1,7 @@
 import VgiVerif.Model.C41
 import VgiVerif.Spec.C41
 import VgiVerif.Lemmas.SchedProd
+import VgiVerif.Gen.C41
 /-
 C41 proofs: isolation of connections (through the generic projection lemma of products of independent components),
 the `max_connections` bound, and the tie of the per-tick producer steps to `Engine.Pipe.iterate`.
@@ -204,6 +205,16 @@ theorem minv_reachable {n : Nat} {prog : Tid → List Op} {s : St} (h : (ts (som
 end Aux
 
 /-! ## the obligations -/
+
+/-- the structural facts of the source that the model relies on: `_handle` is
+`semaphore.acquire ; transport_factory(conn) ; serve ; transport.close ; semaphore.release ; conn_count -= 1`, the
+accept loop starts one `_handle` thread per accepted connection, the semaphore exists exactly when `max_connections`
+is set and has that many permits, `serve_unix` / `serve_tcp` hand `max_connections` through, and `RpcServer.serve` /
+`serve_one` keep no per-connection state on the (shared) server object -/
+theorem C41_shape :
+    Gen.C41.handleProg = [.semAcq, .factory, .serve, .close, .semRel, .countDown] ∧
+    Gen.C41.acceptProg = [.accept, .countUp, .thread, .start] ∧ Gen.C41.semaphoreFromMax = true ∧
+    Gen.C41.callers = true ∧ Gen.C41.serveStoresNothingOnSelf = true ∧ Gen.C41.connShmIsLocal = true := by decide
 
 /-- the per-tick steps of a producer stream compose to `Engine.Pipe.iterate`: ticking a freshly opened session
 until it is over delivers exactly what the Engine's pipe model delivers for the whole stream (so the per-connection
